@@ -22,12 +22,12 @@ enum Act {
     /// the same constructors / point assignment fed with elements that carry a stale pending modifier
     FromSliceDirty(Vec<u8>),
     NewDirty(u8),
-    SetDirty(u8, u8),
-    Set(u8, u8),
-    Modify(u8, u8, u8),
-    Ask(u8, u8),
-    Lb(u8, Pred),
-    LbRev(u8, Pred),
+    SetDirty(u16, u8),
+    Set(u16, u8),
+    Modify(u16, u16, u8),
+    Ask(u16, u16),
+    Lb(u16, Pred),
+    LbRev(u16, Pred),
     Debug,
 }
 
@@ -168,7 +168,7 @@ impl<A: Alg> System for Sys<A> {
     }
 
     fn actions(&self, s: &St<A>) -> Vec<Act> {
-        let n = self.n as u8;
+        let n = self.n as u16;
         let mut v = vec![];
         for i in 0..n {
             for e in 0..A::n_elems() as u8 {
@@ -261,12 +261,16 @@ impl<A: Alg> System for Sys<A> {
                     log.borrow_mut().push(o);
                     h
                 });
-                let exp = (l..self.n).find(|&r| A::holds(p, &A::fold(&s.model[l..=r])));
+                let exp = (l..self.n).find(|&r| A::holds_on(p, &s.model, l, r));
                 if got != exp {
                     return Err(format!("lower_bound({l}, {:?}) returned {:?}; smallest r with the predicate true on fold([{l}..=r]) of {:?} is {:?}", p, got, s.model, exp));
                 }
                 for o in log.into_inner() {
-                    if !(l..self.n).any(|r| A::fold(&s.model[l..=r]) == o) {
+                    let ok = match A::obs_len(&o) {
+                        Some(k) => k >= 1 && l + k <= self.n && A::fold(&s.model[l..l + k]) == o,
+                        None => (l..self.n).any(|r| A::fold(&s.model[l..=r]) == o),
+                    };
+                    if !ok {
                         return Err(format!("lower_bound({l}, {:?}) showed the predicate the aggregate {:?}, which is not the in-order merge of [{l}..=r] for any r (array {:?})", p, o, s.model));
                     }
                 }
@@ -281,12 +285,16 @@ impl<A: Alg> System for Sys<A> {
                     log.borrow_mut().push(o);
                     h
                 });
-                let exp = (0..=r).rev().find(|&l| A::holds(p, &A::fold(&s.model[l..=r])));
+                let exp = (0..=r).rev().find(|&l| A::holds_on(p, &s.model, l, r));
                 if got != exp {
                     return Err(format!("lower_bound_rev({r}, {:?}) returned {:?}; largest l with the predicate true on fold([l..={r}]) of {:?} is {:?}", p, got, s.model, exp));
                 }
                 for o in log.into_inner() {
-                    if !(0..=r).any(|l| A::fold(&s.model[l..=r]) == o) {
+                    let ok = match A::obs_len(&o) {
+                        Some(k) => k >= 1 && k <= r + 1 && A::fold(&s.model[r + 1 - k..=r]) == o,
+                        None => (0..=r).any(|l| A::fold(&s.model[l..=r]) == o),
+                    };
+                    if !ok {
                         return Err(format!("lower_bound_rev({r}, {:?}) showed the predicate the aggregate {:?}, which is not the in-order merge of [l..={r}] for any l (array {:?})", p, o, s.model));
                     }
                 }
@@ -412,6 +420,136 @@ fn replay_part(label: &str, n: usize, mode: Mode, hist: &[Value]) -> Result<(), 
     }
 }
 
+struct Sweep {
+    sizes: Vec<usize>,
+    histories: u64,
+    actions: u64,
+    fail: Option<(usize, Vec<Value>, String)>,
+}
+
+fn boundary_positions(n: usize) -> Vec<usize> {
+    let mut b: Vec<i64> = vec![0, 1, 2, n as i64 / 2 - 1, n as i64 / 2, n as i64 / 2 + 1, n as i64 - 3, n as i64 - 2, n as i64 - 1];
+    let mut p = 1i64;
+    while p <= n as i64 {
+        b.extend([p - 1, p, p + 1]);
+        p *= 2;
+    }
+    let mut v: Vec<usize> = b.into_iter().filter(|x| *x >= 0 && (*x as usize) < n).map(|x| x as usize).collect();
+    v.sort();
+    v.dedup();
+    v
+}
+
+fn sweep_history(n: usize, ctor: u8, mode: Mode) -> Vec<Act> {
+    let init = vec![0u8; n];
+    let mut h = vec![match ctor {
+        0 => Act::FromSlice(init),
+        1 => Act::FromIter(init),
+        _ => Act::New(0),
+    }];
+    let b = boundary_positions(n);
+    let pos: Vec<usize> = if n <= 40 {
+        (0..n).collect()
+    } else if n <= 130 {
+        b.clone()
+    } else {
+        // large arrays: the ends, the middle and the largest power of two inside
+        let p = (n + 1).next_power_of_two() / 2;
+        let mut v: Vec<usize> = [0, 1, n / 2 - 1, n / 2, n / 2 + 1, p - 1, p, (p + 1).min(n - 1), n - 2, n - 1].into_iter().filter(|x| *x < n).collect();
+        v.sort();
+        v.dedup();
+        v
+    };
+    let last = n - 1;
+    let mid = n / 2;
+    let mut ranges: Vec<(usize, usize)> = vec![(0, last), (mid, mid), (0, mid), (mid.min(last), last)];
+    if n >= 3 {
+        ranges.push((1, n - 2));
+    }
+    for w in b.windows(2) {
+        ranges.push((w[0], w[1]));
+    }
+    let queries = |h: &mut Vec<Act>| {
+        for &l in &pos {
+            for &r in &pos {
+                if l <= r {
+                    match mode {
+                        Mode::C01 => h.push(Act::Ask(l as u16, r as u16)),
+                        Mode::C02 => {}
+                    }
+                }
+            }
+            if mode == Mode::C02 {
+                for p in [Pred::LenGe(0), Pred::LenGe(1), Pred::LenGe(2), Pred::LenGe((n - l) as u16), Pred::LenGe((n - l) as u16 + 1), Pred::LastMod(1)] {
+                    h.push(Act::Lb(l as u16, p.clone()));
+                }
+                for p in [Pred::LenGe(0), Pred::LenGe(1), Pred::LenGe(2), Pred::LenGe(l as u16 + 1), Pred::LenGe(l as u16 + 2), Pred::LastMod(1)] {
+                    h.push(Act::LbRev(l as u16, p));
+                }
+            }
+        }
+    };
+    for (k, &(l, r)) in ranges.iter().enumerate() {
+        h.push(Act::Modify(l as u16, r as u16, (k % 2) as u8));
+        if k % 3 == 1 {
+            h.push(Act::Ask(l as u16, r as u16));
+        }
+    }
+    queries(&mut h);
+    for &i in [0, mid, last].iter() {
+        h.push(Act::Set(i as u16, 0));
+    }
+    h.push(Act::Modify(0, last as u16, 1));
+    h.push(Act::Modify(mid as u16, last as u16, 0));
+    queries(&mut h);
+    h
+}
+
+fn size_sweep(mode: Mode, quick: bool) -> Sweep {
+    use rayon::prelude::*;
+    let mut sizes: Vec<usize> = if quick { (1..=40).collect() } else { (1..=130).collect() };
+    sizes.extend([47, 48, 49, 63, 64, 65, 96, 127, 128, 129, 255, 256, 257, 511, 512, 513, 1000, 1023, 1024, 1025]);
+    if !quick {
+        sizes.extend([2047, 2048, 2049, 4095, 4096, 4097]);
+    }
+    sizes.sort();
+    sizes.dedup();
+    let jobs: Vec<(usize, u8)> = sizes.iter().flat_map(|&n| (0..3u8).map(move |c| (n, c))).collect();
+    let res: Vec<(usize, u64, Option<(Vec<Value>, String)>)> = jobs
+        .par_iter()
+        .map(|&(n, c)| {
+            let h = sweep_history(n, c, mode);
+            let vals: Vec<Value> = h.iter().map(|a| serde_json::to_value(a).unwrap()).collect();
+            let sys = Sys::<AlgFr>::new(n, mode, true);
+            match replay_history(&sys, &vals) {
+                Ok(()) => (n, h.len() as u64, None),
+                Err(m) => {
+                    // shortest failing prefix
+                    let mut hi = vals.len();
+                    let mut lo = 1;
+                    while lo < hi {
+                        let midp = (lo + hi) / 2;
+                        if replay_history(&sys, &vals[..midp]).is_err() {
+                            hi = midp;
+                        } else {
+                            lo = midp + 1;
+                        }
+                    }
+                    (n, h.len() as u64, Some((vals[..hi].to_vec(), m)))
+                }
+            }
+        })
+        .collect();
+    let mut sw = Sweep { sizes, histories: res.len() as u64, actions: 0, fail: None };
+    for (n, k, f) in res {
+        sw.actions += k;
+        if let (Some((h, m)), true) = (f, sw.fail.is_none()) {
+            sw.fail = Some((n, h, m));
+        }
+    }
+    sw
+}
+
 fn confirm_mode(mode: Mode) -> impl Fn(&Value) -> Result<(), String> {
     move |v: &Value| {
         if v["kind"] == "from" {
@@ -509,6 +647,11 @@ fn main() {
         parts.push(run_part::<Comb<Comb<AlgMinAdd, AlgMaxAdd>, AlgSumAdd>>("Comb<Comb<MinAdd,MaxAdd>,SumAdd>+stale-tags", n, mode, Some(d), true, wall));
     }
 
+    // Part E: size sweep — directed histories on the free algebra for many sizes (every n up to 40/130,
+    // and the neighbours of powers of two up to 1025/4097), all three constructors, boundary-targeted
+    // modifications, then ALL (l, r) queries (n <= 40) or all pairs of boundary positions
+    let sweep = size_sweep(mode, quick);
+
     let mut states = 0u64;
     let mut transitions = 0u64;
     let mut table = vec![];
@@ -535,6 +678,11 @@ fn main() {
             let sig = format!("{}:n={}:{}", p.name, p.n, serde_json::to_string(&f.history).unwrap());
             run.violation(Violation::new(sig, format!("[{} n={}] {}", p.name, p.n, f.message), json!({"kind": "history", "algebra": p.name, "n": p.n, "history": f.history})));
         }
+    }
+    run.cov("size_sweep", json!({"sizes": sweep.sizes, "histories": sweep.histories, "actions_executed": sweep.actions, "note": "NOT a closure: directed histories per size on the free algebra (3 constructors x boundary-targeted modifies x all or boundary (l,r) queries / searches)"}));
+    if let Some((n, hist, msg)) = sweep.fail {
+        let sig = format!("sweep:Fr:n={}:{}", n, serde_json::to_string(&hist.iter().rev().take(6).rev().collect::<Vec<_>>()).unwrap());
+        run.violation(Violation::new(sig, format!("[size sweep, free algebra, n={n}, history of {} actions] {msg}", hist.len()), json!({"kind": "history", "algebra": "Fr", "n": n, "history": hist})));
     }
     if mode == Mode::C01 {
         if let Err(m) = check_from() {
